@@ -270,6 +270,41 @@ impl Lexer {
     }
 }
 
+/// Verification-only access to the lexer's cursor bookkeeping.
+#[cfg(rva_verif)]
+impl Lexer {
+    /// Build a lexer directly from characters (skips the UTF-8 decode).
+    #[must_use]
+    pub fn verif_from_chars(source: Vec<char>, id: Uuid) -> Lexer {
+        Lexer {
+            source,
+            source_id: id,
+            pos: 0,
+            row: 0,
+            col: 0,
+        }
+    }
+
+    pub fn verif_consume_char(&mut self) {
+        self.consume_char();
+    }
+
+    #[must_use]
+    pub fn verif_get_pos(&self) -> Position {
+        self.get_pos()
+    }
+
+    #[must_use]
+    pub fn verif_get_range(&self) -> Range {
+        self.get_range()
+    }
+
+    #[must_use]
+    pub fn verif_cursor(&self) -> usize {
+        self.pos
+    }
+}
+
 impl Iterator for Lexer {
     type Item = Result<Token, LexError>;
 
